@@ -472,5 +472,6 @@ Emit == (Quiescent /\ Len(script) > 0) =>
            PrintT(<<"SCHED", ToJson([hist |-> hist,
                                      kinds |-> [i \in 1..Len(tasks) |-> tasks[i].kind],
                                      c27 |-> C27, c29 |-> C29, c30 |-> C30, reindex |-> EnableReindex,
+                                     late |-> late, hadReload |-> HadReload, disk |-> disk,
                                      script |-> script])>>)
 =============================================================================
